@@ -78,3 +78,10 @@ Proof. reflexivity. Qed.
 (* no tunnel on a shaped listener waits for another one's connection *)
 Lemma tunnels_do_not_wait : tunnel_may_wait_for_another shaped_copy_unlocked = false.
 Proof. reflexivity. Qed.
+
+(* the tunnel's behaviour does not depend on when the ends write *)
+Lemma no_timed_transition : tunnel_has_timed_transition tunnel_conns_no_armed_deadline = false.
+Proof. reflexivity. Qed.
+
+Lemma armed_deadline_is_timed : tunnel_has_timed_transition false = true.
+Proof. reflexivity. Qed.
